@@ -4,6 +4,100 @@ From Sim Require Import Integrator Simulator Protocol SimProofs.
 Import ListNotations.
 Open Scope Q_scope.
 
+(** ** pure list facts used by C14 *)
+Lemma filter_none_above (l : list Q) (x lo mid : Q) :
+  (forall y, In y l -> x < y) -> mid < x -> filter (fun t => Qltb lo t && Qle_bool t mid) l = [].
+Proof.
+  intros Hall Hx. induction l as [|y r IH]; [reflexivity|]. cbn [filter].
+  assert (E : Qle_bool y mid = false).
+  { apply Qle_bool_false. specialize (Hall y (or_introl eq_refl)). lra. }
+  rewrite E, andb_false_r. apply IH. intros z Hz. apply Hall. right. exact Hz.
+Qed.
+
+Lemma windows_partition (l : list Q) (lo mid hi : Q) :
+  incr l -> lo <= mid -> mid <= hi ->
+  filter (fun t => Qltb lo t && Qle_bool t mid) l ++ filter (fun t => Qltb mid t && Qle_bool t hi) l
+  = filter (fun t => Qltb lo t && Qle_bool t hi) l.
+Proof.
+  intros Hinc H1 H2. induction l as [|x r IH]; [reflexivity|].
+  destruct Hinc as [Hx Hr]. specialize (IH Hr). cbn [filter].
+  destruct (Qltb lo x) eqn:El; cbn [andb].
+  - apply Qltb_iff in El. destruct (Qle_bool x mid) eqn:Em.
+    + apply Qle_bool_iff in Em.
+      assert (E1 : Qltb mid x = false) by (apply Qltb_false; exact Em).
+      assert (E2 : Qle_bool x hi = true) by (apply Qle_bool_iff; lra).
+      rewrite E1, E2. cbn [andb app]. rewrite <- IH. reflexivity.
+    + apply Qle_bool_false in Em.
+      assert (E1 : Qltb mid x = true) by (apply Qltb_iff; exact Em). rewrite E1. cbn [andb].
+      rewrite (filter_none_above r x lo mid Hx Em) in *. cbn [app] in *.
+      destruct (Qle_bool x hi); [rewrite IH; reflexivity|exact IH].
+  - apply Qltb_false in El.
+    assert (E1 : Qltb mid x = false) by (apply Qltb_false; lra). rewrite E1. cbn [andb]. exact IH.
+Qed.
+
+Lemma qins_spec x l :
+  incr l ->
+  incr (qins x l)
+  /\ (exists y, In y (qins x l) /\ y == x)
+  /\ (forall y, In y l -> In y (qins x l))
+  /\ (forall y, In y (qins x l) -> y = x \/ In y l).
+Proof.
+  induction l as [|a r IH]; intro Hinc.
+  - cbn. split; [split; [intros ? []|exact I]|]. split; [exists x; split; [left; reflexivity|reflexivity]|].
+    split; [intros ? []|]. intros y [<-|[]]. left. reflexivity.
+  - destruct Hinc as [Ha Hr]. destruct (IH Hr) as (I1 & (w & Hw & Ew) & I3 & I4). cbn [qins].
+    destruct (Qltb x a) eqn:E1.
+    + apply Qltb_iff in E1. split; [|split; [|split]].
+      * split; [|split; assumption]. intros y [<-|Hy]; [exact E1|]. specialize (Ha y Hy). lra.
+      * exists x. split; [left; reflexivity|reflexivity].
+      * intros y Hy. right. exact Hy.
+      * intros y [<-|Hy]; [left; reflexivity|right; exact Hy].
+    + apply Qltb_false in E1. destruct (Qeq_bool x a) eqn:E2.
+      * apply Qeq_bool_iff in E2. split; [split; assumption|]. split; [exists a; split; [left; reflexivity|lra]|].
+        split; [intros y Hy; exact Hy|]. intros y Hy. right. exact Hy.
+      * apply Qeq_bool_false in E2. assert (Hlt : a < x) by (destruct (Qlt_le_dec a x); [assumption|exfalso; apply E2; lra]).
+        split; [|split; [|split]].
+        -- split; [|exact I1]. intros y Hy. destruct (I4 y Hy) as [->|Hy']; [exact Hlt|exact (Ha y Hy')].
+        -- exists w. split; [right; exact Hw|exact Ew].
+        -- intros y [<-|Hy]; [left; reflexivity|right; exact (I3 y Hy)].
+        -- intros y [<-|Hy]; [right; left; reflexivity|]. destruct (I4 y Hy) as [->|Hy']; [left; reflexivity|right; right; exact Hy'].
+Qed.
+
+Lemma qfold_spec (b base : list Q) :
+  incr base ->
+  incr (fold_right qins base b)
+  /\ (forall x, In x b \/ In x base -> exists y, In y (fold_right qins base b) /\ y == x)
+  /\ (forall y, In y (fold_right qins base b) -> In y b \/ In y base).
+Proof.
+  intro Hb. induction b as [|x r IH]; cbn [fold_right].
+  - split; [exact Hb|]. split; [intros x [[]|Hx]; exists x; split; [exact Hx|reflexivity]|]. intros y Hy. right. exact Hy.
+  - destruct IH as (I1 & I2 & I3). destruct (qins_spec x _ I1) as (J1 & (w & Hw & Ew) & J3 & J4).
+    split; [exact J1|]. split.
+    + intros z [[<-|Hz]|Hz].
+      * exists w. split; assumption.
+      * destruct (I2 z (or_introl Hz)) as (y & Hy & Ey). exists y. split; [exact (J3 y Hy)|exact Ey].
+      * destruct (I2 z (or_intror Hz)) as (y & Hy & Ey). exists y. split; [exact (J3 y Hy)|exact Ey].
+    + intros y Hy. destruct (J4 y Hy) as [->|Hy']; [left; left; reflexivity|].
+      destruct (I3 y Hy') as [H|H]; [left; right; exact H|right; exact H].
+Qed.
+
+Lemma qunion_exact (a b : list Q) :
+  incr (qunion a b)
+  /\ (forall x, In x a \/ In x b -> exists y, In y (qunion a b) /\ y == x)
+  /\ (forall y, In y (qunion a b) -> In y a \/ In y b).
+Proof.
+  unfold qunion.
+  destruct (qfold_spec a [] I) as (A1 & A2 & A3).
+  destruct (qfold_spec b (fold_right qins [] a) A1) as (B1 & B2 & B3).
+  split; [exact B1|]. split.
+  - intros x [Hx|Hx].
+    + destruct (A2 x (or_introl Hx)) as (y & Hy & Ey).
+      destruct (B2 y (or_intror Hy)) as (z & Hz & Ez). exists z. split; [exact Hz|lra].
+    + exact (B2 x (or_introl Hx)).
+  - intros y Hy. destruct (B3 y Hy) as [H|H]; [right; exact H|].
+    destruct (A3 y H) as [H'|[]]. left. exact H'.
+Qed.
+
 Section ProtocolProofs.
   Variables Y P U O : Type.
   Variable flow : P -> Q -> Y -> Q -> Y.
@@ -99,7 +193,7 @@ Section ProtocolProofs.
     pose proof (simulate_inv2 Y P flow solve_ok fx good s t_end (Some (S k)) HI) as H2. rewrite E in H2. cbn [fst] in H2.
     destruct (sim_step Y P flow solve_ok fx good s t_end (Some (S k)) k (proj1 HI) Herr eq_refl) as [Hle Hgt].
     destruct (Qlt_le_dec (reached Y P s) t_end) as [L|L].
-    - destruct (Hgt L) as (_ & _ & E'). rewrite E' in E. rewrite Hnf in E. injection E as <-.
+    - destruct (Hgt L) as (_ & _ & E'). rewrite E' in E. rewrite (mok_true Y P solve_ok fx _ Hnf) in E. injection E as <-.
       split; [|split; [exact Herr|exact H2]].
       unfold after_ok. cbn [s_vars]. discriminate.
     - rewrite (Hle L) in E. discriminate.
@@ -150,7 +244,7 @@ Section ProtocolProofs.
     destruct (tc_step Y P flow solve_ok fx good s pts (proj1 HI) Herr Hne) as [Hle Hgt].
     destruct (Qlt_le_dec (reached Y P s) (lastq pts 0)) as [L|L].
     - destruct (Hgt L) as (h & rest & _ & _ & _ & _ & E'). rewrite E' in E. unfold step_result in E.
-      destruct (incrb (h :: rest)); [|discriminate]. rewrite Hnf in E. injection E as <-.
+      destruct (incrb (h :: rest)); [|discriminate]. rewrite (mok_true Y P solve_ok fx _ Hnf) in E. injection E as <-.
       split; [|split; [exact Herr|exact H2]].
       unfold after_ok. cbn [s_vars]. discriminate.
     - rewrite (Hle L) in E. discriminate.
@@ -176,6 +270,314 @@ Section ProtocolProofs.
     destruct (s_vars s2) eqn:Ev; [|congruence].
     apply IH; assumption.
   Qed.
+  (** ** C14: a protocol with positive durations is ACCEPTED step by step, one segment per step, each
+      recorded with that step's parameter values, and ends exactly at the last cumulative end *)
+  Fixpoint scan_pars (p : P) (us : list U) : list P :=
+    match us with [] => [] | u :: r => pupd p u :: scan_pars (pupd p u) r end.
+
+  Fixpoint ends_incr (lo : Q) (rows : list (Q * U)) : Prop :=
+    match rows with [] => True | (T, _) :: r => lo < T /\ ends_incr T r end.
+
+  Lemma ends_incr_lo lo lo' rows : lo' <= lo -> ends_incr lo rows -> ends_incr lo' rows.
+  Proof. destruct rows as [|[T u] r]; [exact (fun _ H => H)|]. intros Hl [H1 H2]. split; [lra|exact H2]. Qed.
+
+  Lemma make_protocol_ends_incr steps : forall t,
+    Forall (fun st : Q * U => 0 < fst st) steps -> ends_incr t (make_protocol_from U t steps).
+  Proof.
+    induction steps as [|[d u] r IH]; intros t Hpos; [exact I|].
+    inversion Hpos as [|? ? Hd Hr]; subst. cbn [make_protocol_from ends_incr fst] in *.
+    split; [lra|apply IH; exact Hr].
+  Qed.
+
+  Definition nsegs (s : sim) : nat := match s_vars s with None => 0%nat | Some l => length l end.
+
+  Lemma appended_counts s s2 h rest :
+    appended Y P flow s s2 h rest -> rest <> [] ->
+    nsegs s2 = S (nsegs s) /\ pars_list Y P s2 = pars_list Y P s ++ [s_mp s] /\ s_mp s2 = s_mp s.
+  Proof.
+    intros (_ & (segs & Hv & Hlast & Hrm) & Hp & _ & Hmp & _) Hne.
+    split; [|split; [unfold pars_list; rewrite Hp; reflexivity|exact Hmp]].
+    unfold nsegs. rewrite Hv.
+    assert (Hsne : segs <> []).
+    { intro E. subst segs. cbn in Hlast. destruct (s_vars s); destruct rest; cbn in Hlast; congruence. }
+    rewrite (@app_removelast_last _ segs [] Hsne), Hrm, app_length. cbn [length].
+    destruct (s_vars s); cbn [length]; lia.
+  Qed.
+
+  Lemma protocol_loop_accepted rows : forall s t_start k,
+    never_fails -> Inv2 s -> has_errors Y P s = false ->
+    ends_incr (reached Y P s - t_start) rows ->
+    exists s', protocol_loop s t_start (S k) rows = (s', Done) /\ Inv2 s' /\ has_errors Y P s' = false
+      /\ pars_list Y P s' = pars_list Y P s ++ scan_pars (s_mp s) (map snd rows)
+      /\ s_mp s' = fold_left pupd (map snd rows) (s_mp s)
+      /\ nsegs s' = (nsegs s + length rows)%nat
+      /\ (rows <> [] -> reached Y P s' == t_start + lastq (map fst rows) 0).
+  Proof.
+    induction rows as [|[T u] rest IH]; intros s t_start k Hnf HI Herr Hinc.
+    - exists s. cbn [Protocol.protocol_loop map scan_pars fold_left length]. rewrite app_nil_r, Nat.add_0_r.
+      split; [reflexivity|]. split; [exact HI|]. split; [exact Herr|]. split; [reflexivity|].
+      split; [reflexivity|]. split; [reflexivity|]. intro H. congruence.
+    - destruct Hinc as [HT Hrest]. cbn [Protocol.protocol_loop].
+      set (s1 := update_parameters s u).
+      assert (HI1 : Inv2 s1) by (apply update_parameters_inv2; exact HI).
+      assert (Herr1 : has_errors Y P s1 = false) by exact Herr.
+      assert (Hr1 : reached Y P s1 = reached Y P s) by reflexivity.
+      destruct (simulate_spec Y P flow solve_ok fx good s1 (t_start + T) (Some (S k)) k HI1 Herr1 eq_refl)
+        as (Hiff & Hdone & _ & Hacc).
+      destruct (simulate s1 (t_start + T) (Some (S k))) as [s2 o] eqn:E. cbn [fst snd] in *.
+      assert (Ho : o = Done).
+      { apply Hdone. intro Hrv. apply Hiff in Hrv. rewrite Hr1 in Hrv. clear - HT Hrv. set (r := reached Y P s) in *. clearbody r. lra. }
+      subst o.
+      destruct (simulate_done _ _ _ _ Hnf HI1 Herr1 E) as (Hv & Herr2 & HI2).
+      destruct (Hacc s2 eq_refl Herr2) as (_ & _ & _ & _ & Happ & Hreach & Hlen).
+      assert (Hrne : sim_rest Y P s1 (t_start + T) k <> []) by (intro E0; rewrite E0 in Hlen; discriminate).
+      destruct (appended_counts _ _ _ _ Happ Hrne) as (Hn & Hp & Hmp).
+      destruct (s_vars s2) eqn:Ev; [|congruence].
+      destruct (IH s2 t_start k Hnf HI2 Herr2) as (s' & El & HI' & Herr' & Hp' & Hmp' & Hn' & Hreach').
+      { apply (ends_incr_lo T); [lra|exact Hrest]. }
+      exists s'. split; [exact El|]. split; [exact HI'|]. split; [exact Herr'|].
+      split; [|split; [|split]].
+      + rewrite Hp', Hp, Hmp. cbn [map snd scan_pars]. rewrite <- app_assoc. reflexivity.
+      + rewrite Hmp', Hmp. reflexivity.
+      + rewrite Hn', Hn. change (nsegs s1) with (nsegs s). cbn [length]. lia.
+      + intros _. destruct rest as [|r0 rest'].
+        * cbn [Protocol.protocol_loop] in El. assert (Es : s' = s2) by congruence. subst s'. cbn [map fst lastq]. exact Hreach.
+        * rewrite (Hreach' ltac:(discriminate)). cbn [map fst]. rewrite (lastq_cons T (fst r0 :: map fst rest') 0) by discriminate. reflexivity.
+  Qed.
+
+  Theorem protocol_accepted s steps k :
+    never_fails -> Inv2 s -> has_errors Y P s = false ->
+    Forall (fun st : Q * U => 0 < fst st) steps ->
+    exists s', simulate_protocol Y P U flow solve_ok pupd fx s (make_protocol U steps) (S k) = (s', Done)
+      /\ Inv2 s' /\ has_errors Y P s' = false
+      /\ pars_list Y P s' = pars_list Y P s ++ scan_pars (s_mp s) (map snd steps)
+      /\ nsegs s' = (nsegs s + length steps)%nat
+      /\ (steps <> [] -> reached Y P s' == reached Y P s + lastq (map fst (make_protocol U steps)) 0).
+  Proof.
+    intros Hnf HI Herr Hpos. unfold simulate_protocol. rewrite Herr.
+    destruct (Inv_prior Y P s (proj1 HI)) as (r & Hpr & _). rewrite Hpr. rewrite (reached_prior Y P s r Hpr).
+    destruct (protocol_loop_accepted (make_protocol U steps) s r k Hnf HI Herr) as (s' & El & HI' & Herr' & Hp & _ & Hn & Hre).
+    { rewrite (reached_prior Y P s r Hpr). apply (ends_incr_lo 0); [lra|]. apply make_protocol_ends_incr. exact Hpos. }
+    assert (Hsnd : forall t, map snd (make_protocol_from U t steps) = map snd steps).
+    { clear. induction steps as [|[d u] r' IH]; intro t; [reflexivity|]. cbn. rewrite IH. reflexivity. }
+    assert (Hlen : forall t, length (make_protocol_from U t steps) = length steps).
+    { clear. induction steps as [|[d u] r' IH]; intro t; [reflexivity|]. cbn. rewrite IH. reflexivity. }
+    exists s'. split; [exact El|]. split; [exact HI'|]. split; [exact Herr'|].
+    unfold make_protocol in *. rewrite Hsnd in Hp. rewrite Hlen in Hn.
+    split; [exact Hp|]. split; [exact Hn|].
+    intro Hne. apply Hre. destruct steps as [|[d u] r']; [congruence|discriminate].
+  Qed.
+
+  (** ** the refusal test of the time-course form *)
+  Lemma ptc_refusal (s : sim) (rows : list (Q * U)) (pts : list Q) (rel : bool) :
+    Inv2 s -> has_errors Y P s = false -> pts <> [] ->
+    let start := reached Y P s in
+    let pts' := if rel then map (fun t => t + start) pts else pts in
+    let rows' := map (fun r : Q * U => (fst r + start, snd r)) rows in
+    (lastq pts' 0 <= start ->
+       simulate_protocol_time_course Y P U flow solve_ok pupd fx s rows pts rel = (s, RaisedValue))
+    /\ (start < lastq pts' 0 ->
+       simulate_protocol_time_course Y P U flow solve_ok pupd fx s rows pts rel
+       = protocol_tc_loop s start (qunion (map fst rows') pts') rows').
+  Proof.
+    intros HI Herr Hne start pts' rows'.
+    destruct (Inv_prior Y P s (proj1 HI)) as (r & Hpr & _).
+    assert (Hs : start = r) by (apply reached_prior; exact Hpr).
+    unfold simulate_protocol_time_course. rewrite Herr, Hpr. rewrite <- Hs.
+    fold rows'. fold pts'.
+    assert (Hne' : pts' <> []).
+    { unfold pts'. destruct rel; [|exact Hne]. destruct pts; [congruence|discriminate]. }
+    destruct pts' as [|p0 ps] eqn:Ep; [congruence|].
+    rewrite (g_ptc_cmp fx good). cbn [cmpb].
+    rewrite (lastq_default (p0 :: ps) p0 0 Hne').
+    split; intro H.
+    - apply Qle_bool_iff in H. rewrite H. reflexivity.
+    - apply Qle_bool_false in H. rewrite H. reflexivity.
+  Qed.
+
+  (** ** C14: the time-course form appends EXACTLY the window (start, T_n] of the sorted union *)
+  Definition win (lo hi : Q) (full : list Q) : list Q := filter (fun t => Qltb lo t && Qle_bool t hi) full.
+
+  Lemma win_In lo hi full y : In y (win lo hi full) <-> In y full /\ lo < y /\ y <= hi.
+  Proof.
+    unfold win. rewrite filter_In, andb_true_iff, Qltb_iff, Qle_bool_iff. tauto.
+  Qed.
+
+  Lemma Qeql_refl l : Qeql l l.
+  Proof. induction l; constructor; [reflexivity|assumption]. Qed.
+
+  Lemma Qeql_trans a b c : Qeql a b -> Qeql b c -> Qeql a c.
+  Proof.
+    intro H. revert c. induction H as [|x y a' b' Hxy Hab IH]; intros c Hbc; inversion Hbc; subst; constructor.
+    - lra.
+    - apply IH. assumption.
+  Qed.
+
+  Lemma Qeql_app a b c d : Qeql a b -> Qeql c d -> Qeql (a ++ c) (b ++ d).
+  Proof. apply Forall2_app. Qed.
+
+  Lemma incr_le_last l d x : incr l -> In x l -> x <= lastq l d.
+  Proof.
+    intros Hinc Hx. assert (Hne : l <> []) by (destruct l; [destruct Hx|discriminate]).
+    destruct (exists_last' l Hne) as (pre & z & ->). rewrite lastq_app.
+    apply in_app_or in Hx. destruct Hx as [Hx|[<-|[]]]; [|lra].
+    pose proof (incr_last_max pre z Hinc x Hx). lra.
+  Qed.
+
+  Definition base_index (s : sim) : list Q :=
+    match s_vars s with None => [reached Y P s] | Some _ => index_of Y P s end.
+
+  Lemma lastq_ends T (u : U) rest t0 : ends_incr T rest ->
+    lastq (map fst ((T, u) :: rest)) t0 = lastq (map fst rest) T /\ T <= lastq (map fst rest) T.
+  Proof.
+    destruct rest as [|[T2 u2] r]; [intros _; split; [reflexivity|cbn; lra]|].
+    intros Hinc. split.
+    - cbn [map fst]. rewrite lastq_cons by discriminate. apply lastq_default. discriminate.
+    - revert T T2 u2 Hinc. induction r as [|[T3 u3] r IH]; intros T T2 u2 [H1 H2].
+      + cbn. lra.
+      + specialize (IH T2 T3 u3 H2). cbn [map fst] in *.
+        rewrite lastq_cons by discriminate. rewrite (lastq_default _ T T2) by discriminate. lra.
+  Qed.
+
+  Lemma win_empty t full : win t t full = [].
+  Proof.
+    unfold win. induction full as [|x r IHf]; [reflexivity|]. cbn [filter].
+    destruct (Qltb t x) eqn:E1; cbn [andb]; [|exact IHf].
+    apply Qltb_iff in E1. assert (E2 : Qle_bool x t = false) by (apply Qle_bool_false; exact E1).
+    rewrite E2. exact IHf.
+  Qed.
+
+  (** one step of the loop: update_parameters u ; simulate_time_course (window (t_start, T]) *)
+  Lemma tc_window_step s t_start T u full :
+    never_fails -> Inv2 s -> has_errors Y P s = false ->
+    incr full -> reached Y P s == t_start -> t_start < T -> (exists y, In y full /\ y == T) ->
+    exists s2,
+      simulate_time_course (update_parameters s u)
+        (filter (fun t => cmpb (f_win_lo fx) t t_start && cmpb (f_win_hi fx) t T) full) = (s2, Done)
+      /\ s_vars s2 <> None /\ Inv2 s2 /\ has_errors Y P s2 = false
+      /\ Qeql (index_of Y P s2) (base_index s ++ win t_start T full)
+      /\ pars_list Y P s2 = pars_list Y P s ++ [pupd (s_mp s) u]
+      /\ s_mp s2 = pupd (s_mp s) u
+      /\ nsegs s2 = S (nsegs s)
+      /\ reached Y P s2 == T.
+  Proof.
+    intros Hnf HI Herr Hfull Hreach HT (y & Hy & Ey).
+    rewrite (g_win_lo fx good), (g_win_hi fx good). cbn [cmpb]. fold (win t_start T full).
+    set (sel := win t_start T full).
+    set (s1 := update_parameters s u).
+    assert (HI1 : Inv2 s1) by (apply update_parameters_inv2; exact HI).
+    assert (Herr1 : has_errors Y P s1 = false) by exact Herr.
+    assert (Hr1 : reached Y P s1 = reached Y P s) by reflexivity.
+    assert (Hysel : In y sel) by (apply win_In; split; [exact Hy|lra]).
+    assert (Hsne : sel <> []) by (intro E0; rewrite E0 in Hysel; destruct Hysel).
+    assert (Hsinc : incr sel) by (apply incr_filter; exact Hfull).
+    assert (Hall : forall t, In t sel -> t_start < t /\ t <= T) by (intros t Ht; apply win_In in Ht; tauto).
+    assert (Hlast : lastq sel 0 == T).
+    { pose proof (incr_le_last sel 0 y Hsinc Hysel) as H1.
+      destruct (Hall _ (lastq_In sel 0 Hsne)) as [_ H2]. lra. }
+    destruct (time_course_spec Y P flow solve_ok fx good s1 sel HI1 Herr1 Hsne) as (Hiff & Hdone & _ & Hacc).
+    destruct (simulate_time_course s1 sel) as [s2 o] eqn:E. cbn [fst snd] in *.
+    assert (Ho : o = Done).
+    { apply Hdone. intro Hrv. apply Hiff in Hrv. destruct Hrv as [Hrv|Hrv].
+      - rewrite Hr1 in Hrv. lra.
+      - apply Hrv. apply incr_filter. exact Hsinc. }
+    subst o.
+    destruct (time_course_done _ _ _ Hnf HI1 Herr1 Hsne E) as (Hv & Herr2 & HI2).
+    destruct (Hacc s2 eq_refl Herr2) as (h & rest & Hh & Hsync & _ & Hincr & Happ & Hnew & Hreach2).
+    assert (Hfilt : filter (fun t => Qltb (reached Y P s1) t) sel = sel).
+    { apply filter_all. intros t Ht. apply Qltb_iff. destruct (Hall t Ht). rewrite Hr1. lra. }
+    rewrite Hfilt in Hnew.
+    assert (Hrne : rest <> []).
+    { intro E0. subst rest. cbn [map] in Hnew. inversion Hnew as [Hx Hx2|]. apply Hsne. symmetry. exact Hx2. }
+    destruct (appended_counts _ _ _ _ Happ Hrne) as (Hn & Hp & Hmp).
+    exists s2. split; [reflexivity|]. split; [exact Hv|]. split; [exact HI2|]. split; [exact Herr2|].
+    split; [|split; [exact Hp|split; [exact Hmp|split; [exact Hn|rewrite Hreach2; exact Hlast]]]].
+    destruct Happ as (Hidx & _). rewrite Hidx. apply Qeql_app; [|exact Hnew].
+    unfold base_index. change (s_vars s1) with (s_vars s). change (index_of Y P s1) with (index_of Y P s).
+    destruct (s_vars s); [apply Qeql_refl|].
+    constructor; [|constructor]. rewrite (add_shift_v Y P s1 h). rewrite Hh, Hsync, Hr1. reflexivity.
+  Qed.
+
+  Lemma protocol_tc_loop_axis rows : forall s t_start full,
+    never_fails -> Inv2 s -> has_errors Y P s = false -> (rows <> [] \/ s_vars s <> None) ->
+    incr full -> reached Y P s == t_start -> ends_incr t_start rows ->
+    (forall r, In r rows -> exists y, In y full /\ y == fst r) ->
+    exists s', protocol_tc_loop s t_start full rows = (s', Done) /\ Inv2 s' /\ has_errors Y P s' = false
+      /\ Qeql (index_of Y P s') (base_index s ++ win t_start (lastq (map fst rows) t_start) full)
+      /\ pars_list Y P s' = pars_list Y P s ++ scan_pars (s_mp s) (map snd rows)
+      /\ nsegs s' = (nsegs s + length rows)%nat
+      /\ reached Y P s' == lastq (map fst rows) t_start.
+  Proof.
+    induction rows as [|[T u] rest IH]; intros s t_start full Hnf HI Herr Hvars Hfull Hreach Hinc Hin.
+    - exists s. cbn [Protocol.protocol_tc_loop map scan_pars length lastq]. rewrite win_empty, !app_nil_r, Nat.add_0_r.
+      split; [reflexivity|]. split; [exact HI|]. split; [exact Herr|].
+      split; [|split; [reflexivity|split; [reflexivity|exact Hreach]]].
+      unfold base_index. destruct (s_vars s); [apply Qeql_refl|]. destruct Hvars; congruence.
+    - destruct Hinc as [HT Hrest]. cbn [Protocol.protocol_tc_loop].
+      destruct (tc_window_step s t_start T u full Hnf HI Herr Hfull Hreach HT (Hin (T, u) (or_introl eq_refl)))
+        as (s2 & E & Hv2 & HI2 & Herr2 & Hidx2 & Hp2 & Hmp2 & Hn2 & Hreach2).
+      rewrite E. destruct (s_vars s2) eqn:Ev2; [|congruence].
+      destruct (IH s2 T full Hnf HI2 Herr2 ltac:(right; congruence) Hfull Hreach2 Hrest) as (s' & El & HI' & Herr' & Hidx' & Hp' & Hn' & Hreach').
+      { intros r Hr. apply Hin. right. exact Hr. }
+      destruct (lastq_ends T u rest t_start Hrest) as [Hl1 Hl2].
+      exists s'. split; [exact El|]. split; [exact HI'|]. split; [exact Herr'|].
+      rewrite Hl1.
+      split; [|split; [|split; [|exact Hreach']]].
+      + eapply Qeql_trans; [exact Hidx'|].
+        unfold win. rewrite <- (windows_partition full t_start T (lastq (map fst rest) T) Hfull); [|lra|exact Hl2].
+        rewrite app_assoc. apply Qeql_app; [|apply Qeql_refl].
+        unfold base_index at 1. rewrite Ev2. exact Hidx2.
+      + rewrite Hp', Hp2, Hmp2. cbn [map snd scan_pars]. rewrite <- app_assoc. reflexivity.
+      + rewrite Hn', Hn2. cbn [length]. lia.
+  Qed.
+
+  Lemma ends_incr_shift c rows : forall lo,
+    ends_incr lo rows -> ends_incr (lo + c) (map (fun r : Q * U => (fst r + c, snd r)) rows).
+  Proof.
+    induction rows as [|[T u] r IH]; intros lo H; [exact I|].
+    destruct H as [H1 H2]. cbn [map ends_incr fst snd]. split; [lra|apply IH; exact H2].
+  Qed.
+
+  (** the whole call: not refused, one segment per step with that step's values, and the index is the
+      previous index (or the start time of a fresh simulator) followed by EXACTLY the points of the sorted
+      duplicate-free union of boundaries and requested points that lie in (start, T_n] *)
+  Theorem ptc_axis_exact (s : sim) (steps : list (Q * U)) (pts : list Q) (rel : bool) :
+    never_fails -> Inv2 s -> has_errors Y P s = false -> pts <> [] -> steps <> [] ->
+    Forall (fun st : Q * U => 0 < fst st) steps ->
+    let start := reached Y P s in
+    let pts' := if rel then map (fun t => t + start) pts else pts in
+    let rows' := map (fun r : Q * U => (fst r + start, snd r)) (make_protocol U steps) in
+    let full := qunion (map fst rows') pts' in
+    start < lastq pts' 0 ->
+    exists s', simulate_protocol_time_course Y P U flow solve_ok pupd fx s (make_protocol U steps) pts rel = (s', Done)
+      /\ Inv2 s' /\ has_errors Y P s' = false
+      /\ Qeql (index_of Y P s') (base_index s ++ win start (lastq (map fst rows') start) full)
+      /\ pars_list Y P s' = pars_list Y P s ++ scan_pars (s_mp s) (map snd steps)
+      /\ nsegs s' = (nsegs s + length steps)%nat
+      /\ reached Y P s' == lastq (map fst rows') start.
+  Proof.
+    intros Hnf HI Herr Hne Hsne Hpos start pts' rows' full Hlt.
+    destruct (ptc_refusal s (make_protocol U steps) pts rel HI Herr Hne) as [_ Hgo].
+    fold start in Hgo. fold pts' in Hgo. fold rows' in Hgo. fold full in Hgo. rewrite (Hgo Hlt).
+    destruct (qunion_exact (map fst rows') pts') as (Hfinc & Hfin & _). fold full in Hfinc, Hfin.
+    assert (Hrne : rows' <> []).
+    { unfold rows', make_protocol. destruct steps as [|[d u] r]; [congruence|discriminate]. }
+    assert (Hei : ends_incr start rows').
+    { apply (ends_incr_lo (0 + start)); [lra|]. unfold rows'. apply ends_incr_shift.
+      apply make_protocol_ends_incr. exact Hpos. }
+    destruct (protocol_tc_loop_axis rows' s start full Hnf HI Herr (or_introl Hrne) Hfinc ltac:(reflexivity) Hei)
+      as (s' & El & HI' & Herr' & Hidx & Hp & Hn & Hre).
+    { intros r Hr. apply Hfin. left. apply in_map. exact Hr. }
+    exists s'. split; [exact El|]. split; [exact HI'|]. split; [exact Herr'|]. split; [exact Hidx|].
+    assert (Hsnd : map snd rows' = map snd steps).
+    { unfold rows', make_protocol. rewrite map_map. cbn [snd].
+      generalize 0 as t. clear. induction steps as [|[d u] r IH]; intro t; [reflexivity|]. cbn. rewrite IH. reflexivity. }
+    assert (Hlen : length rows' = length steps).
+    { unfold rows', make_protocol. rewrite map_length.
+      generalize 0 as t. clear. induction steps as [|[d u] r IH]; intro t; [reflexivity|]. cbn. rewrite IH. reflexivity. }
+    rewrite Hsnd in Hp. rewrite Hlen in Hn. split; [exact Hp|]. split; [exact Hn|exact Hre].
+  Qed.
+
 End ProtocolProofs.
 
 Section Corollaries.
@@ -225,110 +627,94 @@ Section Corollaries.
   Qed.
 End Corollaries.
 
+(** ** C04: segments chain -- refinement to the abstract flow specification.
+    [flow p t y d] is the solution map of the model's equations (state after duration d from state y
+    at ABSOLUTE time t).  Assumed of it, as Section hypotheses: it depends on its time arguments as
+    rational NUMBERS (not on their representation) and satisfies the semigroup law of solutions. *)
+Section Chain.
+  Variables Y P : Type.
+  Variable flow : P -> Q -> Y -> Q -> Y.
+  Variable solve_ok : P -> Q -> Y -> Q -> bool.
+  Variable fx : sim_facts.
+  Hypothesis good : good_facts fx.
+  Hypothesis flow_ext : forall p t t' y d d', t == t' -> d == d' -> flow p t y d = flow p t' y d'.
+  Hypothesis flow_semigroup : forall p t y a b, 0 <= a -> 0 <= b -> flow p (t + a) (flow p t y a) b = flow p t y (a + b).
+  Hypothesis Hnf : forall p t y t1, solve_ok p t y t1 = true.
+
+  Notation simulate := (simulate Y P flow solve_ok fx).
+
+  (** an accepted [simulate]: the state the NEXT segment starts from is the solution, in absolute time, from
+      the state this segment started from *)
+  Lemma state_after_simulate (s : sim Y P) t_end steps m :
+    Inv2 Y P s -> has_errors Y P s = false -> n_points steps = S (S m) -> reached Y P s < t_end ->
+    exists s', simulate s t_end steps = (s', Done) /\ Inv2 Y P s' /\ has_errors Y P s' = false
+      /\ s_mp s' = s_mp s /\ reached Y P s' == t_end
+      /\ i_y0 (s_int s') = flow (s_mp s) (reached Y P s) (i_y0 (s_int s)) (t_end - reached Y P s).
+  Proof.
+    intros HI Herr Hm Hlt.
+    destruct (sim_step Y P flow solve_ok fx good s t_end steps m (proj1 HI) Herr Hm) as [_ Hgt].
+    destruct (Hgt Hlt) as (Hh & Hinc & E). rewrite (mok_true Y P solve_ok fx s Hnf) in E.
+    destruct (Inv_prior Y P s (proj1 HI)) as (r0 & Hpr & Hsync & _).
+    rewrite <- (reached_prior Y P s r0 Hpr) in Hsync.
+    assert (Hrne : sim_rest Y P s t_end m <> []) by (unfold sim_rest; destruct (map _ (seq 1 m)); discriminate).
+    exists (after_ok Y P flow fx s (sim_h Y P s t_end m) (sim_rest Y P s t_end m)).
+    split; [exact E|]. split; [apply after_ok_inv2; assumption|]. split; [exact Herr|]. split; [reflexivity|].
+    destruct (after_ok_inv Y P flow fx s _ _ (proj1 HI) Hh Hrne Hinc) as [_ Hp].
+    split.
+    - rewrite (reached_prior _ _ _ _ Hp). unfold sim_rest. rewrite lastq_app, add_shift_v, sub_shift_v. lra.
+    - unfold after_ok. cbn [s_int i_y0]. rewrite (mflow_good Y P flow fx good).
+      unfold sim_rest. rewrite lastq_app. apply flow_ext.
+      + rewrite add_shift_v. lra.
+      + rewrite sub_shift_v. lra.
+  Qed.
+
+  (** continuing IS the same as simulating in one go: [simulate t1; simulate t2] and [simulate t2] leave the
+      simulator at the same time with the same state (whatever the grids) *)
+  Theorem continuation_is_one_run (s : sim Y P) t1 t2 st1 st2 m1 m2 :
+    Inv2 Y P s -> has_errors Y P s = false -> n_points st1 = S (S m1) -> n_points st2 = S (S m2) ->
+    reached Y P s < t1 -> t1 < t2 ->
+    let s12 := fst (simulate (fst (simulate s t1 st1)) t2 st2) in
+    let s2 := fst (simulate s t2 st2) in
+    i_y0 (s_int s12) = i_y0 (s_int s2)
+    /\ i_y0 (s_int s2) = flow (s_mp s) (reached Y P s) (i_y0 (s_int s)) (t2 - reached Y P s)
+    /\ reached Y P s12 == t2 /\ reached Y P s2 == t2.
+  Proof.
+    intros HI Herr Hm1 Hm2 H1 H2.
+    destruct (state_after_simulate s t1 st1 m1 HI Herr Hm1 H1) as (s1 & E1 & HI1 & Herr1 & Hmp1 & Hr1 & Hy1).
+    destruct (state_after_simulate s1 t2 st2 m2 HI1 Herr1 Hm2 ltac:(lra)) as (s12 & E12 & _ & _ & _ & Hr12 & Hy12).
+    destruct (state_after_simulate s t2 st2 m2 HI Herr Hm2 ltac:(lra)) as (s2 & E2 & _ & _ & _ & Hr2 & Hy2).
+    cbv zeta. rewrite E1. cbn [fst]. rewrite E12, E2. cbn [fst].
+    split; [|split; [exact Hy2|split; assumption]].
+    rewrite Hy12, Hy2, Hy1, Hmp1.
+    rewrite (flow_ext (s_mp s) (reached Y P s1) (reached Y P s + (t1 - reached Y P s)) _ (t2 - reached Y P s1) (t2 - t1));
+      [|lra|lra].
+    rewrite flow_semigroup; [|lra|lra]. apply flow_ext; lra.
+  Qed.
+End Chain.
+
+(** the hypotheses of [Chain] are jointly satisfiable: the solution map of dx/dt = p over [Q] *)
+Definition lin_flow (p : Q) (t : Q) (y : Q) (d : Q) : Q := Qred (y + p * d).
+Lemma lin_flow_ext p t t' y d d' : t == t' -> d == d' -> lin_flow p t y d = lin_flow p t' y d'.
+Proof. intros _ Hd. unfold lin_flow. apply Qred_complete. rewrite Hd. reflexivity. Qed.
+Lemma lin_flow_semigroup p t y a b :
+  0 <= a -> 0 <= b -> lin_flow p (t + a) (lin_flow p t y a) b = lin_flow p t y (a + b).
+Proof. intros _ _. unfold lin_flow. apply Qred_complete. rewrite Qred_correct. ring. Qed.
+
 (** the facts of the tree the theorems are instantiated at (edited only together with a fix: commit) *)
 Definition pinned_facts : sim_facts :=
-  mkSimFacts FrameAbs CmpLe FrameAbs CmpLe CmpGe true true false true false 100 1000 CmpLe CmpGt CmpLe true true.
+  mkSimFacts FrameAbs CmpLe FrameAbs CmpLe CmpGe true true false true false 100 1000 CmpLe CmpGt CmpLe true true true.
 
 Lemma good_of_pinned fx : fx = pinned_facts -> good_facts fx.
 Proof. intros ->. constructor; reflexivity. Qed.
 
 (** the facts of the unrepaired tree (frame mix-up, overrides not accumulated) -- for the refutations *)
 Definition unrepaired_facts : sim_facts :=
-  mkSimFacts FrameMixed CmpLe FrameMixed CmpLe CmpGe true true false true false 100 1000 CmpLe CmpGt CmpLe false true.
+  mkSimFacts FrameMixed CmpLe FrameMixed CmpLe CmpGe true true false true false 100 1000 CmpLe CmpGt CmpLe false false true.
+
+(** the facts before fixes/C04-override-time.diff: the model is handed the integrator's shifted time *)
+Definition shifted_time_facts : sim_facts :=
+  mkSimFacts FrameAbs CmpLe FrameAbs CmpLe CmpGe true true false true false 100 1000 CmpLe CmpGt CmpLe true false true.
 
 Lemma not_incr_by_compute l : incrb l = false -> ~ incr l.
 Proof. intros H Hi. apply incr_incrb in Hi. congruence. Qed.
 
-(** ** pure list facts used by C14 *)
-Lemma filter_none_above (l : list Q) (x lo mid : Q) :
-  (forall y, In y l -> x < y) -> mid < x -> filter (fun t => Qltb lo t && Qle_bool t mid) l = [].
-Proof.
-  intros Hall Hx. induction l as [|y r IH]; [reflexivity|]. cbn [filter].
-  assert (E : Qle_bool y mid = false).
-  { apply Qle_bool_false. specialize (Hall y (or_introl eq_refl)). lra. }
-  rewrite E, andb_false_r. apply IH. intros z Hz. apply Hall. right. exact Hz.
-Qed.
-
-Lemma windows_partition (l : list Q) (lo mid hi : Q) :
-  incr l -> lo <= mid -> mid <= hi ->
-  filter (fun t => Qltb lo t && Qle_bool t mid) l ++ filter (fun t => Qltb mid t && Qle_bool t hi) l
-  = filter (fun t => Qltb lo t && Qle_bool t hi) l.
-Proof.
-  intros Hinc H1 H2. induction l as [|x r IH]; [reflexivity|].
-  destruct Hinc as [Hx Hr]. specialize (IH Hr). cbn [filter].
-  destruct (Qltb lo x) eqn:El; cbn [andb].
-  - apply Qltb_iff in El. destruct (Qle_bool x mid) eqn:Em.
-    + apply Qle_bool_iff in Em.
-      assert (E1 : Qltb mid x = false) by (apply Qltb_false; exact Em).
-      assert (E2 : Qle_bool x hi = true) by (apply Qle_bool_iff; lra).
-      rewrite E1, E2. cbn [andb app]. rewrite <- IH. reflexivity.
-    + apply Qle_bool_false in Em.
-      assert (E1 : Qltb mid x = true) by (apply Qltb_iff; exact Em). rewrite E1. cbn [andb].
-      rewrite (filter_none_above r x lo mid Hx Em) in *. cbn [app] in *.
-      destruct (Qle_bool x hi); [rewrite IH; reflexivity|exact IH].
-  - apply Qltb_false in El.
-    assert (E1 : Qltb mid x = false) by (apply Qltb_false; lra). rewrite E1. cbn [andb]. exact IH.
-Qed.
-
-Lemma qins_spec x l :
-  incr l ->
-  incr (qins x l)
-  /\ (exists y, In y (qins x l) /\ y == x)
-  /\ (forall y, In y l -> In y (qins x l))
-  /\ (forall y, In y (qins x l) -> y = x \/ In y l).
-Proof.
-  induction l as [|a r IH]; intro Hinc.
-  - cbn. split; [split; [intros ? []|exact I]|]. split; [exists x; split; [left; reflexivity|reflexivity]|].
-    split; [intros ? []|]. intros y [<-|[]]. left. reflexivity.
-  - destruct Hinc as [Ha Hr]. destruct (IH Hr) as (I1 & (w & Hw & Ew) & I3 & I4). cbn [qins].
-    destruct (Qltb x a) eqn:E1.
-    + apply Qltb_iff in E1. split; [|split; [|split]].
-      * split; [|split; assumption]. intros y [<-|Hy]; [exact E1|]. specialize (Ha y Hy). lra.
-      * exists x. split; [left; reflexivity|reflexivity].
-      * intros y Hy. right. exact Hy.
-      * intros y [<-|Hy]; [left; reflexivity|right; exact Hy].
-    + apply Qltb_false in E1. destruct (Qeq_bool x a) eqn:E2.
-      * apply Qeq_bool_iff in E2. split; [split; assumption|]. split; [exists a; split; [left; reflexivity|lra]|].
-        split; [intros y Hy; exact Hy|]. intros y Hy. right. exact Hy.
-      * apply Qeq_bool_false in E2. assert (Hlt : a < x) by (destruct (Qlt_le_dec a x); [assumption|exfalso; apply E2; lra]).
-        split; [|split; [|split]].
-        -- split; [|exact I1]. intros y Hy. destruct (I4 y Hy) as [->|Hy']; [exact Hlt|exact (Ha y Hy')].
-        -- exists w. split; [right; exact Hw|exact Ew].
-        -- intros y [<-|Hy]; [left; reflexivity|right; exact (I3 y Hy)].
-        -- intros y [<-|Hy]; [right; left; reflexivity|]. destruct (I4 y Hy) as [->|Hy']; [left; reflexivity|right; right; exact Hy'].
-Qed.
-
-Lemma qfold_spec (b base : list Q) :
-  incr base ->
-  incr (fold_right qins base b)
-  /\ (forall x, In x b \/ In x base -> exists y, In y (fold_right qins base b) /\ y == x)
-  /\ (forall y, In y (fold_right qins base b) -> In y b \/ In y base).
-Proof.
-  intro Hb. induction b as [|x r IH]; cbn [fold_right].
-  - split; [exact Hb|]. split; [intros x [[]|Hx]; exists x; split; [exact Hx|reflexivity]|]. intros y Hy. right. exact Hy.
-  - destruct IH as (I1 & I2 & I3). destruct (qins_spec x _ I1) as (J1 & (w & Hw & Ew) & J3 & J4).
-    split; [exact J1|]. split.
-    + intros z [[<-|Hz]|Hz].
-      * exists w. split; assumption.
-      * destruct (I2 z (or_introl Hz)) as (y & Hy & Ey). exists y. split; [exact (J3 y Hy)|exact Ey].
-      * destruct (I2 z (or_intror Hz)) as (y & Hy & Ey). exists y. split; [exact (J3 y Hy)|exact Ey].
-    + intros y Hy. destruct (J4 y Hy) as [->|Hy']; [left; left; reflexivity|].
-      destruct (I3 y Hy') as [H|H]; [left; right; exact H|right; exact H].
-Qed.
-
-Lemma qunion_exact (a b : list Q) :
-  incr (qunion a b)
-  /\ (forall x, In x a \/ In x b -> exists y, In y (qunion a b) /\ y == x)
-  /\ (forall y, In y (qunion a b) -> In y a \/ In y b).
-Proof.
-  unfold qunion.
-  destruct (qfold_spec a [] I) as (A1 & A2 & A3).
-  destruct (qfold_spec b (fold_right qins [] a) A1) as (B1 & B2 & B3).
-  split; [exact B1|]. split.
-  - intros x [Hx|Hx].
-    + destruct (A2 x (or_introl Hx)) as (y & Hy & Ey).
-      destruct (B2 y (or_intror Hy)) as (z & Hz & Ez). exists z. split; [exact Hz|lra].
-    + exact (B2 x (or_introl Hx)).
-  - intros y Hy. destruct (B3 y Hy) as [H|H]; [right; exact H|].
-    destruct (A3 y H) as [H'|[]]. left. exact H'.
-Qed.
